@@ -7,7 +7,7 @@ from ..consteval import UNKNOWN, fold_in
 from ..dataflow import must_facts
 from ..locks import regions
 from ..mutate import B, M
-from ..flow import only_none_guards
+from ..flow import only_none_guards, unchanged_param
 from ..symexec import paths_of, subst
 
 PROP = 'C06'
@@ -295,6 +295,13 @@ def check(ctx):
     regn = [n for n in grf.nodes if n.kind == 'stmt' and isinstance(n.ast, ast.Assign) and norm(n.ast.targets[0]).startswith('self._read_requests[')]
     bad_ret = [n for n in grf.nodes if n.kind == 'return' and fold_in(rf_, n.ast.value) is not False and not (regn and grf.dominates(regn[0], n))]
     ctx.inst('R4', rf_, 'read-accepted-iff-registered', not bad_ret, 'read() reports success at line %s without registering the request' % [n.line for n in bad_ret])
+
+    # the request covers exactly the range / data the caller named: address, length and data reach the request object unchanged (a
+    # `length = length or rest` treats the valid length 0 as "everything")
+    for fobj, gg, ctor, keep in ((rf_, grf, '_ReadRequest', rf_.params[2:4]), (wf_, gwf, '_WriteRequest', wf_.params[2:4])):
+        mk_ = gg.find(lambda q, ctor=ctor: isinstance(q, ast.Call) and dotted(q.func) == ctor)
+        okp = len(mk_) == 1 and all(any(isinstance(a_, ast.Name) and a_.id == p_ for a_ in mk_[0][1].args) and unchanged_param(gg, mk_[0][0], p_) for p_ in keep)
+        ctx.inst('R1', fobj, 'range-as-requested', okp, '%s builds its %s from its own %s arguments, never re-bound on the way' % (fobj.qualname, ctor, keep))
 
     dflt = mem.method('write').defaults()
     ctx.inst('R5', mem.method('write'), 'queue-kept-by-default', 'flush_queue' in dflt and fold_in(mem.method('write'), dflt['flush_queue']) is False,
